@@ -156,7 +156,7 @@ class BinaryCarver(BaseCarver):
                 xtab = crosstab(X[feature], y)
 
                 # reordering according to known_order
-                xtab = xtab.reindex(labels_orders[feature], fill_value=0)
+                xtab = xtab.reindex(labels_orders[feature])
 
                 # storing results
                 xtabs.update({feature: xtab})
